@@ -456,3 +456,9 @@ Example C14_stalled_reader_nonvacuous :
        [TOpen "dev2" None true; TStall 0%nat; TUpdate "dev" (inl 1); TUpdate "dev" (inr 2); TGet "dev" None (inl (Some 2))]
        [([], None)]) = false.
 Proof. vm_compute. repeat split; reflexivity. Qed.
+
+(* Print Assumptions for every theorem above that did not have its own line yet *)
+Print Assumptions C14_unchecked_assert_v0_refuted.
+Print Assumptions C14_openclose_masked_get_v0_refuted.
+Print Assumptions C14_openclose_dead_pull_v0_refuted.
+Print Assumptions C14_openclose_piecewise_update_refuted.
